@@ -18,6 +18,6 @@ class DateTimeUnixTimestamp(Validator):
 
         try:
             return datetime(year=1970, month=1, day=1) + timedelta(seconds=seconds)
-        except OverflowError:
+        except (OverflowError, ValueError):  # ValueError: NaN
             return self.raise_exception(
                 msg=f'Date value out of range. Make sure you send SECONDS since 1970. Got: {value}', value=value)
